@@ -373,6 +373,8 @@ pub fn rem(lhs: &Value, rhs: &Value) -> Result<Value, Error> {
     match coerce(lhs, rhs, true) {
         Some(CoerceResult::I128(a, b)) => match a.checked_rem_euclid(b) {
             Some(val) => Ok(int_as_value(val)),
+            // i128::MIN % -1 overflows internally but is 0
+            None if b == -1 => Ok(int_as_value(0)),
             None => Err(failed_op("%", lhs, rhs)),
         },
         Some(CoerceResult::F64(a, b)) => Ok(a.rem_euclid(b).into()),
